@@ -11,88 +11,135 @@ def jnat (c : Json) (k : String) : Nat := (jint c k).toNat
 def natsJ (l : List Nat) : Json := Json.arr (l.map fun n => Json.num (JsonNumber.fromNat n)).toArray
 def boolsJ (l : List Bool) : Json := Json.arr (l.map Json.bool).toArray
 
-/-- start state of a script: given counts (or zeros), `updated = 0` -/
-def startOB (c : Json) : OB :=
-  let b := OB.init (jnat c "limit") (jnat c "interval")
+/-- clock reading that the white-box harness gives to time 0 of a script (`time.Unix(1700000000, 0)` in ns): a fresh
+breaker has `updated` = the zero time, far more than one window before it -/
+def T0 : Nat := 1700000000000000000
+
+/-- `NewOutboundBreaker(limit, interval)` as the source has it: `none` when `init` returns an error -/
+def newOB (c : Json) : Option OB := OB.initE (jint c "limit") (jint c "interval")
+
+/-- start state of a script: given counts (or zeros); `updated` = zero time unless given (then relative to `T0`) -/
+def startOB (b : OB) (c : Json) : OB :=
   let b := if jhas c "counts" then { b with counts := natArr c "counts" } else b
-  if jhas c "updated" then { b with updated := jnat c "updated" } else b
+  if jhas c "updated" then { b with updated := T0 + jnat c "updated" } else b
 
 /-- cumulative times of a gap script -/
 def cumul (t0 : Nat) : List Nat → List Nat
   | [] => []
   | g :: gs => (t0 + g) :: cumul (t0 + g) gs
 
+structure Step where
+  closed : Bool
+  counts : List Nat
+  updated : Nat
+
 /-- run with the explicit panics; stops at the first error -/
-def runE (fixed : Bool) (b : OB) : List Nat → List (Bool × List Nat) → Except String (List (Bool × List Nat))
+def runE (b : OB) : List BEv → List Step → Except String (List Step)
   | [], acc => .ok acc.reverse
-  | t :: ts, acc =>
-    -- `"fixed": true` runs the proposed repair (`OB.callFixed`) instead of the current code
-    match (if fixed then (if b.ticks = 0 ∨ b.res = 0 then .error .divByZero else .ok (b.callFixed t)) else b.callE t) with
-    | .error .divByZero => .error "divzero"
-    | .error .indexRange => .error "index"
-    | .ok (b', closed) => runE fixed b' ts ((closed, b'.counts) :: acc)
+  | e :: es, acc =>
+    match e with
+    | .call t =>
+      match b.callE t with
+      | .error .divByZero => .error "divzero"
+      | .error .indexRange => .error "index"
+      | .ok (b', closed) => runE b' es ({ closed, counts := b'.counts, updated := b'.updated } :: acc)
+    | .status t =>
+      if b.ticks = 0 ∨ b.res = 0 then .error "divzero"
+      else
+        let r := b.status t
+        runE r.1 es ({ closed := r.2, counts := r.1.counts, updated := r.1.updated } :: acc)
 
 /-- specification, rate clause: no window `[t, t + W)` starting at an admission holds more than `limit` admissions -/
 def specWindowOK (limit W : Nat) (adm : List Nat) : Bool :=
   adm.all fun a => (adm.filter fun t => a ≤ t && t < a + W).length ≤ limit
 
-/-- specification, recovery clause: indices of refused calls although fewer than `limit` admissions lie in `(now - W, now]` -/
-def specRecoveryMisses (limit W : Nat) (times : List Nat) (closed : List Bool) : List Nat :=
-  go 0 times closed []
+/-- the calls of a script with their decisions, in order -/
+def callsOf : List BEv → List Bool → List (Nat × Nat × Bool)
+  | es, cs => go 0 es cs
 where
-  go (i : Nat) : List Nat → List Bool → List Nat → List Nat
-    | t :: ts, c :: cs, adm =>
+  go (i : Nat) : List BEv → List Bool → List (Nat × Nat × Bool)
+    | .call t :: es, c :: cs => (i, t, c) :: go (i + 1) es cs
+    | .status _ :: es, _ :: cs => go (i + 1) es cs
+    | _, _ => []
+
+/-- specification, recovery clause (theorems `breaker_recovers`, `breaker_recovers_graded`): indices of refused calls
+although every earlier admission is at least one window old, or fewer than `limit` admissions are younger than their
+graded window.  `strict` = the unattainable exact reading (fewer than `limit` admissions in `(now - W, now]`), reported
+for the statistics only. -/
+def specRecovery (limit W res : Nat) (calls : List (Nat × Nat × Bool)) : List Nat × List Nat :=
+  go calls [] [] []
+where
+  go : List (Nat × Nat × Bool) → List Nat → List Nat → List Nat → List Nat × List Nat
+    | [], _, miss, strict => (miss.reverse, strict.reverse)
+    | (i, t, c) :: rest, adm, miss, strict =>
+      let idle := 0 < limit && adm.all fun u => u + W ≤ t
+      let graded := gradedCount W (res - 1) t 0 adm < limit
       let recent := (adm.filter fun u => t < u + W).length
-      let miss := !c && recent < limit
-      let rest := go (i + 1) ts cs (if c then t :: adm else adm)
-      if miss then i :: rest else rest
-    | _, _, _ => []
+      go rest (if c then t :: adm else adm)
+        (if !c && (idle || graded) then i :: miss else miss)
+        (if !c && recent < limit then i :: strict else strict)
 
 /-- over-admission w.r.t. the declarative rule "admit iff fewer than limit admissions in the last W": indices admitted
 although `limit` admissions already lie within `(now - W, now]` -/
-def specOverAdmits (limit W : Nat) (times : List Nat) (closed : List Bool) : List Nat :=
-  go 0 times closed []
+def specOverAdmits (limit W : Nat) (calls : List (Nat × Nat × Bool)) : List Nat :=
+  go calls []
 where
-  go (i : Nat) : List Nat → List Bool → List Nat → List Nat
-    | t :: ts, c :: cs, adm =>
+  go : List (Nat × Nat × Bool) → List Nat → List Nat
+    | [], _ => []
+    | (i, t, c) :: rest, adm =>
       let recent := (adm.filter fun u => t < u + W).length
-      let over := c && limit ≤ recent
-      let rest := go (i + 1) ts cs (if c then t :: adm else adm)
-      if over then i :: rest else rest
-    | _, _, _ => []
-
-def gapsFast (res : Nat) (gaps : List Nat) : Bool := gaps.all (· < res)
-def gapsSlow (res : Nat) (gaps : List Nat) : Bool := gaps.all fun g => g == 0 || res ≤ g
+      let r := go rest (if c then t :: adm else adm)
+      if c && limit ≤ recent then i :: r else r
 
 def breakerSeq (c : Json) : Json :=
-  let b := startOB c
-  let times := if jhas c "times" then natArr c "times" else cumul b.updated (natArr c "gaps")
-  match runE (jbool c "fixed") b times [] with
+  match newOB c with
+  | none => Json.mkObj [("err", Json.str "new")]
+  | some b0 =>
+  let b := startOB b0 c
+  let times := (if jhas c "times" then natArr c "times" else cumul 0 (natArr c "gaps")).map (T0 + ·)
+  let ops := (jarr c "ops").map fun j => (j.getStr?).toOption.getD "do"
+  let evs : List BEv := (times.zip (ops ++ List.replicate (times.length - ops.length) "do")).map fun p =>
+    if p.2 == "do" then .call p.1 else .status p.1
+  match runE b evs [] with
   | .error e => Json.mkObj [("err", Json.str e)]
   | .ok steps =>
-    let closed := steps.map (·.1)
-    let adm := ((times.zip closed).filter (·.2)).map (·.1)
+    let closed := steps.map (·.closed)
+    let calls := callsOf evs closed
+    let adm := (calls.filter (·.2.2)).map (·.2.1)
     let W := b.ticks * b.res
     let zeroStart := b.counts.all (· == 0)
-    let gaps := (times.zip (b.updated :: times)).map fun p => p.1 - p.2
+    let rec_ := specRecovery b.limit W b.res calls
     Json.mkObj [
       ("closed", boolsJ closed),
-      ("counts", Json.arr (steps.map fun s => natsJ s.2).toArray),
-      ("final", natsJ ((steps.getLast?.map (·.2)).getD b.counts)),
+      ("counts", Json.arr (steps.map fun s => natsJ s.counts).toArray),
+      ("updated", natsJ (steps.map fun s => s.updated - T0)),
       ("W", Json.num (JsonNumber.fromNat W)), ("res", Json.num (JsonNumber.fromNat b.res)),
       ("zero_start", Json.bool zeroStart),
       ("spec_window_ok", Json.bool (!zeroStart || specWindowOK b.limit W adm)),
-      ("spec_recovery_misses", natsJ (if zeroStart then specRecoveryMisses b.limit W times closed else [])),
-      ("spec_over_admits", natsJ (if zeroStart then specOverAdmits b.limit W times closed else [])),
-      ("fast", Json.bool (gapsFast b.res (gaps.drop 1))),
-      ("slow", Json.bool (gapsSlow b.res gaps))]
+      ("spec_recovery_misses", natsJ (if zeroStart then rec_.1 else [])),
+      ("spec_strict_misses", natsJ (if zeroStart then rec_.2 else [])),
+      ("spec_over_admits", natsJ (if zeroStart then specOverAdmits b.limit W calls else []))]
 
 def slideOnly (c : Json) : Json :=
-  let b := startOB c
+  match OB.initE 1 (jint c "interval") with
+  | none => Json.mkObj [("err", Json.str "new")]
+  | some b0 =>
+  let b := { startOB b0 c with updated := T0 }
   if b.ticks = 0 ∨ b.res = 0 then Json.mkObj [("err", Json.str "divzero")]
   else
-    let b' := b.slide (b.updated + jnat c "gap")
-    Json.mkObj [("counts", natsJ b'.counts), ("updated_is_now", Json.bool (b'.updated == b.updated + jnat c "gap"))]
+    let b' := b.slide (T0 + jnat c "gap")
+    Json.mkObj [("counts", natsJ b'.counts), ("updated", Json.num (JsonNumber.fromNat (b'.updated - T0)))]
+
+/-- `NewOutboundBreaker(limit, interval)` / `Adjust(limit, interval)`: is it refused; does a following `Do` panic -/
+def breakerNew (c : Json) : Json :=
+  match newOB c with
+  | none => Json.mkObj [("rejected", Json.bool true)]
+  | some b =>
+    let r := match b.callE T0 with
+      | .error .divByZero => "divzero"
+      | .error .indexRange => "index"
+      | .ok _ => "ok"
+    Json.mkObj [("rejected", Json.bool false), ("do", Json.str r)]
 
 def pcName : SPc → String
   | .idle => "idle" | .waiting => "waiting" | .overflow => "overflow" | .done => "done"
@@ -160,6 +207,7 @@ def handleC20 (kind : String) (c : Json) : Json :=
   match kind with
   | "c20.breaker_seq" => C20D.breakerSeq c
   | "c20.slide" => C20D.slideOnly c
+  | "c20.breaker_new" => C20D.breakerNew c
   | "c20.throttle" => C20D.throttle c
   | "c20.submit_loop" => C20D.submitLoopJ c
   | "c20.capacity" => C20D.capacity c
